@@ -16,12 +16,14 @@ if go build ./... 2>/dev/null; then res="$res build=ok"; else res="$res build=FA
 if [ -n "$SUITE" ]; then
   if go test -vet=off -count=1 -timeout 25m ./... >/dev/null 2>&1; then res="$res suite=pass"; else res="$res suite=FAIL"; fi
 fi
+names=$(grep -ho '^func Test[A-Za-z0-9_]*' $SRC/demo*_test.go | sed 's/^func //' | sort -u | tr '\n' '|' | sed 's/|$//')
+RUN="^($names)\$"
 for demo in $SRC/demo*_test.go; do
   dst=$W/$(basename $demo); if grep -q "^package sexp" $demo; then dst=$W/sexp/$(basename $demo); fi
   cp $demo $dst
 done
-if go test -vet=off -count=1 -timeout 10m -run 'TestSeeded' ./... >/dev/null 2>&1; then res="$res demo_with_patch=PASS(bad)"; else res="$res demo_with_patch=fail"; fi
+if go test -vet=off -count=1 -timeout 10m -run "$RUN" ./... >/dev/null 2>&1; then res="$res demo_with_patch=PASS(bad)"; else res="$res demo_with_patch=fail"; fi
 git apply -R $SRC/patch.diff
-if go test -vet=off -count=1 -timeout 10m -run 'TestSeeded' ./... >/dev/null 2>&1; then res="$res demo_without_patch=pass"; else res="$res demo_without_patch=FAIL(bad)"; fi
+if go test -vet=off -count=1 -timeout 10m -run "$RUN" ./... >/dev/null 2>&1; then res="$res demo_without_patch=pass"; else res="$res demo_without_patch=FAIL(bad)"; fi
 echo "$res" | tee $SRC/confirm.txt
 cd /; git -C /repo worktree remove --force $W
